@@ -82,12 +82,23 @@ func handleBatchItemError(ctx context.Context, bi *kmip.ResponseBatchItem, err e
 	//TODO: Double check against the KMIP specification about this
 	ClearIdPlaceholder(ctx)
 	bi.ResultStatus = kmip.ResultStatusOperationFailed
+	bi.ResultReason, bi.ResultMessage = describeError(err)
+}
+
+// describeError returns the result reason and message reported for err. The value comes from application code
+// (handlers, middlewares): if its own methods panic, typically a nil pointer stored in the error interface,
+// the failure is still reported instead of taking the server down.
+func describeError(err error) (reason kmip.ResultReason, msg string) {
+	defer func() {
+		if r := recover(); r != nil {
+			reason, msg = kmip.ResultReasonGeneralFailure, fmt.Sprintf("Internal Server Error (%T)", err)
+		}
+	}()
+	reason = kmip.ResultReasonGeneralFailure
 	var e Error
 	if errors.As(err, &e) {
-		bi.ResultReason = e.Reason
-	} else {
-		bi.ResultReason = kmip.ResultReasonGeneralFailure
+		reason = e.Reason
 	}
 	//TODO: Do not return the error message if the error is not of type kmipserver.Error. Log it instead.
-	bi.ResultMessage = err.Error()
+	return reason, err.Error()
 }
